@@ -133,6 +133,8 @@ def check_C03(ctx):
         k = f"kind{o[0]}/arity{len(o[1])}/{'unit' if all(w == 1 for w in o[2][2]) and o[2][1] == 1 else 'weighted'}"
         hist[k] = hist.get(k, 0) + 1
     ctx.cov["distribution"] = hist
+    import checks_fol
+    checks_fol.c03_fol_part(ctx)
     ctx.assumptions.append("proved: not-tighter for all connectives; exactness of the connective's own interval for And and Or; contradiction when infeasible for And. "
                            "Operand exactness and the Implies cases of (b),(c) are only checked on the implementation against the independent oracle (C03_operands_attained_statement is stated, not proved)")
     return ctx.finish("proof", pr, st, rule="single connective (And/Or arity 2-4, Implies), alpha = 1, unit or weighted parameters (weights incl. 0, bias 1/2..2), bounds on the 1/8 grid / classical / absent for the connective and every operand; "
